@@ -87,7 +87,7 @@ SIM = {
         "props": ["C12"],
         "designs": [],
         "profiles": [{"p_txn": 0.7, "p_cancel": 0.4, "p_replace": 0.4, "p_update": 0.25, "p_suspend": 0.25, "p_mver": 0.3, "p_trade": 0.85, "p_action": 0.85, "max_orders": 10, "n_strategies": (1, 1), "p_multi_trade": 0.4, "p_removal": 0.06}],
-        "extra": ["replace_package", "failed_packages"],
+        "extra": ["replace_package", "failed_packages", "package_voided"],
         "n_quick": 120, "n_thorough": 3000,
         "rule": "",
         "assumptions": ASSUME_SIM,
@@ -136,7 +136,7 @@ SIM = {
             {"module": "MC_SimMatch", "constants": MATCH_PLACE_Q, "invariants": C05_INV, "must_reach": ["Reach_FokFilled", "Reach_Resting"]},
             {"module": "MC_SimMatch", "constants": MATCH_PLACE_T, "invariants": C05_INV, "tier": "thorough"},
         ] + simrun_designs(["Inv_C05_FokNeverRests", "Inv_C04_Conserved"]),
-        "extra": ["place_grid"],
+        "extra": ["place_grid", "package_voided"],
         "profiles": MATCH_PROFILES,
         "n_quick": 210, "n_thorough": 6000,
         "rule": "design: every book (<=2 levels/side over 3 prices x 3 sizes) x every limit order flavour; real code: seeded random books/orders through the real stack, each placement's fragments judged against the book the placement executed against",
